@@ -23,6 +23,7 @@
 
 namespace ex = pika::execution::experimental;
 namespace tt = pika::this_thread::experimental;
+using clk = std::chrono::steady_clock;
 using vlog::ev;
 
 static long my_tid() { return (long) syscall(SYS_gettid); }
@@ -187,6 +188,9 @@ int main(int argc, char** argv)
             // thread releases - possibly while the task is still switching off its worker
             std::vector<std::unique_ptr<pika::counting_semaphore<>>> sems;
             std::vector<int> nblocks(nt, 0);
+            // about[i]: how many times task i has announced that it is about to block
+            std::vector<std::unique_ptr<std::atomic<int>>> about;
+            for (int i = 0; i < nt; ++i) about.push_back(std::make_unique<std::atomic<int>>(0));
             for (int i = 0; i < nt; ++i) sems.push_back(std::make_unique<pika::counting_semaphore<>>(0));
             for (int i = 0; i < nt; ++i)
             {
@@ -204,13 +208,18 @@ int main(int argc, char** argv)
                 expected_runs += phases;
                 who sub = me();
                 auto* sem = sems[i].get();
-                ex::execute(s2, [&, p, hint, prio, phases, sub, blocking, sem] {
+                auto* ab = about[i].get();
+                ex::execute(s2, [&, p, hint, prio, phases, sub, blocking, sem, ab] {
                     for (int ph = 0; ph < phases; ++ph)
                     {
                         log_run(p, hint, prio, &sub);
                         if (ph + 1 < phases)
                         {
-                            if (blocking) sem->acquire();
+                            if (blocking)
+                            {
+                                ++*ab;
+                                sem->acquire();
+                            }
                             else pika::this_thread::yield();
                         }
                     }
@@ -218,20 +227,29 @@ int main(int argc, char** argv)
                 });
             }
             {
-                // release the blocked tasks one permit at a time with small random gaps
+                // release the blocked tasks one permit at a time; usually right when the task is about to
+                // block, so that the wake-up finds it registered but still switching off its worker
+                std::vector<int> released(nt, 0);
                 bool more = true;
-                while (more)
+                auto t0 = clk::now();
+                while (more && clk::now() - t0 < std::chrono::seconds(10))
                 {
                     more = false;
                     for (int i = 0; i < nt; ++i)
                         if (nblocks[i] > 0)
                         {
-                            for (int sp = (int) R.below(200); sp > 0; --sp) asm volatile("" ::: "memory");
-                            sems[i]->release();
-                            --nblocks[i];
                             more = true;
+                            bool aligned = R.chance(3, 4);
+                            if (aligned && about[i]->load() <= released[i]) continue;    // not there yet
+                            for (int sp = (int) R.below(aligned ? 4000 : 200); sp > 0; --sp) asm volatile("" ::: "memory");
+                            sems[i]->release();
+                            ++released[i];
+                            --nblocks[i];
                         }
                 }
+                // (give-up path of the loop above: release whatever is left)
+                for (int i = 0; i < nt; ++i)
+                    for (; nblocks[i] > 0; --nblocks[i]) sems[i]->release();
             }
             while (fin.load() < nt) std::this_thread::sleep_for(std::chrono::microseconds(100));
         }
